@@ -815,14 +815,14 @@ pub fn run(ctx: &Ctx) -> Vec<Eng> {
     }
     // the ConstantGetter again with its own time getter failing (two error values): one step shorter
     for mode in 1..=2u8 {
-        par_seqs(&mut e1, OPS.len(), depth - 1, budget, |seq, e| {
+        par_seqs(&mut e1, OPS.len(), depth - 2, budget, |seq, e| {
             CG_CLOCK.with(|c| c.set(mode));
             let a = settable_history(seq, true, e);
             CG_CLOCK.with(|c| c.set(0));
             a
         });
     }
-    e1.bounds.push_str(&format!("; plus 10^{} sequences x 2 on ConstantGetter whose own time getter returns Err(Other(9)) / Err(FromNone) (bookkeeping and update results judged, not get())", depth - 1));
+    e1.bounds.push_str(&format!("; plus 10^{} sequences x 2 on ConstantGetter whose own time getter returns Err(Other(9)) / Err(FromNone) (bookkeeping and update results judged, not get())", depth - 2));
     {
         // long runs: follow(g1) then 40 operations within 2 deviations of `update`
         let cases = deviation_cases(40, OPS.len() - 1, 2);
